@@ -9,7 +9,7 @@ from harness import c06_schema as S
 PROP = "C06"
 COQ = dict(imports=["Model.Schema", "Model.Diff", "Spec.C06"], in_ty="c06_in", out_ty="c06_out",
            corr="corr_C06", decide="check_C06", inclass="inclass_C06", model="model_C06")
-THEOREMS = ["C06_quiet_partial", "C06_converge_partial", "C06_quiet_refuted", "C06_converge_refuted", "C06_decider_sound", "C06_model_holds"]
+THEOREMS = ["C06_quiet_partial", "C06_converge_partial", "C06_quiet_refuted", "C06_converge_refuted", "C06_converge_fkname_refuted", "C06_decider_sound", "C06_model_holds"]
 TRUSTED = [
     "reflect_sqlite (what SQLAlchemy 2.0 reflects from SQLite for the modelled universe) is a modelled table; it is compared "
     "with the abstraction of the really reflected tables on every case",
@@ -26,6 +26,11 @@ ASSUME = [
     "universe: tables, columns (type family + args, nullability, pk flag, server default), named unique constraints, named "
     "plain-column indexes, named foreign keys with onupdate / ondelete / deferrable / initially options in any casing; CHECKs, comments, unnamed constraints, expression indexes, "
     "non-default schemas are outside",
+    "foreign key names used consistently (Diff.fk_names_ok): a name of B that also names a key of the same table in A whose "
+    "signature B still wants names that same signature; otherwise convergence is REFUTED (C06_converge_fkname_refuted): the "
+    "comparison matches keys by signature only and batch mode replaces the key whose name is re-used",
+    "no generated (Computed) columns: batch mode cannot rebuild a table that has one (cannot INSERT into generated column), so such "
+    "upgrades do not run; generated columns are covered by C07 / C20 only",
     "server defaults of the class dflt_ok (no quote, double quote, parenthesis or newline inside a Python-string default or inside a "
     "text() expression / its single pair of quotes or parentheses; Python strings non-empty): outside it the property is REFUTED "
     "(C06_quiet_refuted) - SQLiteImpl.compare_server_default reports a difference on a matching database",
@@ -70,18 +75,30 @@ def generate(tier, seed):
         yield {"A": A, "B": B, "desc": desc}
     if _finding_registered():
         yield from _witnesses()
+    if _finding_registered(FINDING_FKNAME):
+        yield from _fkname_witness()
 
 
 FINDING = "C06-sqlite-string-default-not-quiet"
+FINDING_FKNAME = "C06-fk-name-reused-for-other-signature"
 
 
-def _finding_registered():
+def _finding_registered(fid=FINDING):
     import json, os
     p = os.path.join(os.path.dirname(os.path.dirname(os.path.dirname(os.path.abspath(__file__)))), "known_findings.json")
     try:
-        return any(f.get("id") == FINDING for f in json.load(open(p)).get("findings", []))
+        return any(f.get("id") == fid for f in json.load(open(p)).get("findings", []))
     except Exception:
         return False
+
+
+def _fkname_witness():
+    """C06_converge_fkname_refuted: the database key f10 is renamed f16 in the model and a new key re-uses the name f10"""
+    cols = [[0, 0, [], False, True, None], [1, 0, [], True, False, None], [2, 0, [], True, False, None]]
+    A = [{"name": 1, "cols": cols, "cons": [], "fks": [[10, [2], 1, [0], [None, None, None, None], True]]}]
+    B = [{"name": 1, "cols": cols, "cons": [], "fks": [[10, [2, 1], 1, [1, 0], [None, None, None, None], True],
+                                                        [16, [2], 1, [0], [None, None, None, None], True]]}]
+    yield {"A": A, "B": B, "desc": ["fk_name_reused"]}
 
 
 def _witnesses():
@@ -154,4 +171,6 @@ def _bad_default(d):
 def classify(human, out):
     if any(_bad_default(c[5]) for Sx in (human["A"], human["B"]) for t in Sx for c in t["cols"]):
         return FINDING
+    if not S.fk_names_ok(human["A"], human["B"]):
+        return FINDING_FKNAME
     return None
